@@ -52,6 +52,11 @@ func At(ll orb.Point, z Zoom) Tile {
 		Z: z,
 	}
 
+	// longitude 180 is the right edge of the last column, not a new column
+	if max := uint64(1) << uint64(z); uint64(t.X) >= max {
+		t.X = uint32(max - 1)
+	}
+
 	return t
 }
 
